@@ -52,3 +52,18 @@ package middleware
 //@   requires ch != nil
 //@   modifies ch.count
 //@   ensures ch.count == 0
+//@
+//@ # ---- C04/C08: the request's lifetime bound is a MIN-ONLY fold of the deadlines of its pieces
+//@ spec minDeadline(old time.Time, d time.Time) time.Time := ite(tzero(d), old, ite(tzero(old) || inst(d) < inst(old), d, old))
+//@ func (*ResponseMeta).BoundCutFor
+//@   modifies m.cut
+//@   ensures m != nil ==> inst(m.cut.deadline) == inst(minDeadline(old(m.cut.deadline), deadline))
+//@   ensures m != nil && !tzero(deadline) && (tzero(old(m.cut.deadline)) || inst(deadline) < inst(old(m.cut.deadline))) ==> m.cut.key == key && m.cut.deadline == deadline
+//@   ensures m != nil && !(!tzero(deadline) && (tzero(old(m.cut.deadline)) || inst(deadline) < inst(old(m.cut.deadline)))) ==> m.cut == old(m.cut)
+//@ func (*ResponseMeta).BoundCut
+//@   modifies m.cut
+//@   ensures m != nil ==> inst(m.cut.deadline) == inst(minDeadline(old(m.cut.deadline), deadline))
+//@ func (*ResponseMeta).Cut
+//@   modifies nothing
+//@   ensures m != nil ==> result0 == m.cut.deadline && result1 == m.cut.key
+//@   ensures m == nil ==> tzero(result0) && result1 == 0
